@@ -1,11 +1,17 @@
 """C14 — LDM subscriptions notify exactly the matching data, at the requested cadence.
 
-Theorems: lean/Props/C14.lean about lean/FlexModel/Ldm/Subs.lean.
-Tie: random histories of register/deregister consumer, subscribe, unsubscribe, add, delete, explicit and reactive
-attendance and clock advances through a real LDMFactory facility (LDMServiceReactive; TimeService.time and
-time.monotonic virtual) with recording callbacks, line by line against the Lean model.
+Theorems: lean/Props/C14.lean about lean/FlexModel/Ldm/Subs.lean (all callback behaviours: record / raise / re-enter).
+Tie: (i) random and boundary histories of register/deregister consumer, subscribe (with callbacks that record, raise, or
+re-enter IF.LDM.4 with an unsubscribe / a deregistration), unsubscribe, add (also short validity), update, delete,
+maintenance, explicit and reactive attendance and clock advances through a real LDMFactory facility
+(LDMServiceReactive; TimeService.time and time.monotonic virtual), line by line against the Lean model;
+(ii) lean/Generated/LdmSubs.lean (harness/gen_ldm_subs.py): the checks of validate_subscribe_data_consumer in source
+order with their result codes and the accepted ranges probed on the real validators - the model's refusal ladder is
+DEFINED from them; (iii) the unsubscribe-vs-attendance race on two real threads under harness/dsched.py (`RaceRun`).
 Oracle: `RefSubs`, a reference subscription model written from the property text; at every attendance it computes,
-from the REAL store content, which callbacks must fire and with which objects (C13's brute-force `spec_query`).
+from the REAL store content, which callbacks must fire and with which objects (C13's brute-force `spec_query`), in
+snapshot order with the effect of every callback's action; the cadence is judged over the whole history (a notification
+earlier than one interval after the previous one is a violation).
 """
 from __future__ import annotations
 
@@ -18,20 +24,27 @@ import props.c13 as c13
 MODULES = ["Props.C14"]
 DRIVERS = ["Ldm"]
 TRUSTED = [
-    "callbacks are plain recorders (a callback that re-enters the LDM is out of scope); the store content used by the "
-    "oracle at an attendance is read back from the real database after the operation (C12 covers the store itself)",
+    "callbacks record what they receive and then do nothing, raise, or re-enter IF.LDM.4 (unsubscribe / deregister); a "
+    "callback that adds data or subscribes is out of scope; the store content used by the oracle at an attendance is read "
+    "back from the real database after the operation (C12 covers the store itself)",
+    "thread schedules: harness/dsched.py (CPython executes one bytecode atomically; Lock/RLock replaced by scheduler-aware "
+    "equivalents); the race scenario has no Lean model, its oracle is the event order",
 ] + c13.TRUSTED[:1]
 ASSUMPTIONS = [
     "attendance happens when attend_subscriptions is called explicitly and, reactively, inside add_provider_data of a "
-    "registered provider when >= 0.5 s (monotonic) passed since the last reactive attendance (LDMServiceReactive)",
+    "registered provider when >= 0.5 s (monotonic) passed since the last reactive attendance (LDMServiceReactive); the "
+    "periodic service thread (LDMServiceThreads) calls the same attend_subscriptions every 0.5 s and is not run here",
     "the LDM clock has one-second resolution: `now` = whole UTC seconds; a subscription's interval starts at the "
     "subscription and restarts at every notification",
     "several invalid fields in one subscription request: any of the matching refusal codes is accepted by the oracle "
-    "(the model and Props.C14.validation_codes pin the code's ladder order)",
-    "orders in subscriptions are tuples (a list makes SubscribeDataobjectsReq unhashable: TypeError at subscribe, "
-    "compared model-vs-code only); order attributes missing in a selected object fall under C13-KF2",
+    "(the model and Props.C14.validation_codes pin the code's ladder order, regenerated from the source)",
+    "orders in subscriptions are tuples (a list makes SubscribeDataobjectsReq unhashable: TypeError at subscribe, not "
+    "exercised); a subscription whose order attribute is missing / of mixed type in the selection (C13-KF2) is skipped by "
+    "the repaired attendance - the oracle accepts no notification or a notification of the right objects in any order",
     "known finding C14-KF1: the subscription id is hash(request), so equal requests share one id and unsubscribing one "
     "removes all of them (pinned by tests/.../test_ldm_service.py::test_delete_subscription)",
+    "known finding C14-KF2 (threads only): a removal racing an in-flight attendance can be followed by one more callback "
+    "when the notification had been decided before the removal returned, or when notify_time is None/0",
 ]
 
 CFG = c13.CFG
@@ -49,12 +62,13 @@ class RefSubs:
         self.utc, self.mono = L.UTC0_MS, L.MONO0_MS
         self.last_attend = L.MONO0_MS
         self.dead_twins = {}                        # cb -> reason, for C14-KF1 classification
+        self.exp_app = {}
 
     def now(self):
         return L.now_its(self.utc)
 
     def refusal_causes(self, op):
-        _, cb, app, types, prio, flt, notify, mult, order = op
+        _, cb, app, types, prio, flt, notify, mult, order = op[:9]
         causes = set()
         if app not in self.consumers:
             causes.add(1)
@@ -73,21 +87,49 @@ class RefSubs:
         return causes
 
     def attendance(self, stored):
-        """expected callbacks {cb: [record tokens]} at an attendance over `stored`; None = undefined (C13-KF2)"""
-        expected = {}
+        """expected callbacks at an attendance over `stored`, walking the subscriptions in storage order (the snapshot):
+        ({cb: [record tokens]}, {cb: sorted record tokens of a subscription whose ORDER is undefined - C13-KF2: the
+        repaired attendance skips it, a notification in any order is tolerated}).  The action of every expected
+        callback (unsubscribe / deregister, see ldm_common.act_token) takes effect before the next subscription."""
+        expected, optional = {}, {}
         now = self.now()
         for cb, s in list(self.subs.items()):
+            if cb not in self.subs:
+                continue                            # removed by the action of an earlier callback of this attendance
             if s["app"] not in self.consumers:
                 del self.subs[cb]                   # deregistered: never notified again
                 continue
+            need = max(1, s["mult"] or 0)
+            due = now >= s["last"] + (s["notify"] or 0)
             kind, objs = c13.spec_query(stored, set(s["types"]), s["flt"], s["order"])
             if kind != "ok":
-                return None
-            need = max(1, s["mult"] or 0)
-            if len(objs) >= need and now >= s["last"] + (s["notify"] or 0):
+                _, objs = c13.spec_query(stored, set(s["types"]), s["flt"], None)
+                if len(objs) >= need and due:
+                    optional[cb] = sorted(L.ser_record(d) for d in objs)
+                continue
+            if len(objs) >= need and due:
                 expected[cb] = [L.ser_record(d) for d in objs]
+                self.exp_app[cb] = s["app"]
                 s["last"] = now
-        return expected
+                self.run_action(s.get("act"))
+        return expected, optional
+
+    def run_action(self, act):
+        if act is None or act == "x":
+            return
+        if act[0] == "d":
+            self.consumers.discard(act[1])
+            for cb in [cb for cb, s in self.subs.items() if s["app"] == act[1]]:
+                del self.subs[cb]
+        elif act[0] == "u":
+            app, j = act[1], act[2]
+            if app not in self.consumers or j is None or j >= len(self.issued):
+                return
+            cb, key = self.issued[j], self.key_of_issued(j)
+            if cb in self.subs:
+                del self.subs[cb]
+            for c in [c for c, s in self.subs.items() if s["key"] == key]:
+                self.dead_twins[c] = cb             # equal request, same hash id: the code removes it as well (C14-KF1)
 
     def step(self, op, line, stored):
         bad = []
@@ -101,7 +143,7 @@ class RefSubs:
         expected = {}
         attended = False
         if head and head[0] == "x":
-            bad.append((f"{n}: exception {head[1]} escaped", "order-undefined"))
+            bad.append((f"{n}: exception {head[1]} escaped to the caller", None))
         if n == "regc":
             if head == ["c", "0"]:
                 self.consumers.add(op[1])
@@ -118,7 +160,7 @@ class RefSubs:
             self.utc += op[1]
             self.mono += op[1]
         elif n == "sub":
-            _, cb, app, types, prio, flt, notify, mult, order = op
+            _, cb, app, types, prio, flt, notify, mult, order = op[:9]
             causes = self.refusal_causes(op)
             if causes:
                 if head[0] != "c" or len(head) != 2 or int(head[1]) not in causes:
@@ -163,17 +205,9 @@ class RefSubs:
                     attended = True
                     if head[0] != "x":
                         self.last_attend = self.mono
+        optional = {}
         if attended:
-            expected = self.attendance(stored)
-            if expected is None:
-                # order undefined for some subscription (C13-KF2): follow the code, judge nothing
-                for cb in got:
-                    if cb in self.subs:
-                        self.subs[cb]["last"] = self.now()
-                return [b for b in bad if b[1] != "order-undefined"] + (
-                    [("attendance raised on an order attribute missing in a selected object", "C13-KF2x")]
-                    if head and head[0] == "x" else [])
-        bad = [(w, None if f == "order-undefined" else f) for w, f in bad]
+            expected, optional = self.attendance(stored)
         for cb, recs in expected.items():
             if cb not in got:
                 if cb in self.dead_twins:
@@ -185,9 +219,13 @@ class RefSubs:
             elif got[cb][1] != recs:
                 what = "in the wrong order" if sorted(got[cb][1]) == sorted(recs) else "with other objects"
                 bad.append((f"{n}: subscription {cb} notified {what}: got {len(got[cb][1])}, specification {len(recs)}", None))
-            elif got[cb][0] != self.subs[cb]["app"]:
+            elif got[cb][0] != self.exp_app.get(cb):
                 bad.append((f"{n}: notification of {cb} carries application id {got[cb][0]}", None))
         for cb in got:
+            if cb in optional and cb not in expected and sorted(got[cb][1]) == optional[cb]:
+                if cb in self.subs:
+                    self.subs[cb]["last"] = self.now()      # order undefined (C13-KF2): notified in some order
+                continue
             if cb not in expected:
                 why = ("unsubscribed / consumer deregistered" if cb not in self.subs else
                        "fewer matches than multiplicity, interval not elapsed, or no attendance due")
@@ -200,13 +238,15 @@ class RefSubs:
     _keys = None
 
     def _store(self, op):
-        _, cb, app, types, prio, flt, notify, mult, order = op
+        _, cb, app, types, prio, flt, notify, mult, order = op[:9]
+        act = op[9] if len(op) > 9 else None
         if self._keys is None:
             self._keys = []
         key = repr((app, types, prio, flt, notify, mult, order))
         self._keys.append(key)
         self.issued.append(cb)
-        self.subs[cb] = dict(app=app, types=types, flt=flt, notify=notify, mult=mult, order=order, last=self.now(), key=key)
+        self.subs[cb] = dict(app=app, types=types, flt=flt, notify=notify, mult=mult, order=order, last=self.now(), key=key,
+                             act=act)
 
 
 _T = {}
@@ -235,8 +275,6 @@ def judge(hist, lines, stores):
     out = []
     for k, (op, line, st) in enumerate(zip(hist["ops"], lines, stores)):
         for what, fid in ref.step(op, line, st):
-            if fid == "C13-KF2x":
-                continue            # C13's known finding surfacing through a subscription order: not judged here
             out.append((k, what, fid))
     return out
 
@@ -262,9 +300,6 @@ def check_history(ctx, hist, tag, model_lines=None):
                       {"kind": "history", "cfg": hist["cfg"], "ops": hist["ops"][:k + 1]}, fid)
     if model_lines is not None:
         for k, (a, b) in enumerate(zip(lines, model_lines)):
-            if a != b and b.startswith("x TypeError") and not a.startswith("x "):
-                ctx.cover("kf2_repaired_variant_skips")      # C13-KF2 repaired in the code: the model (as is) raises
-                break
             if a != b:
                 ctx.mismatch("ldm.subscriptions", {"cfg": hist["cfg"], "ops": hist["ops"][:k + 1]}, a[:400], b[:400])
                 break
@@ -272,8 +307,19 @@ def check_history(ctx, hist, tag, model_lines=None):
 
 
 def model_outputs(ctx, hists, variants):
-    import props.c12 as c12
-    return c12.model_outputs(ctx, hists, variants)
+    """per history: the model's answer line per operation (own copy: c12's version interleaves its state lines)"""
+    if not ctx.model_ok:
+        return [None] * len(hists)
+    lines, spans = [], []
+    for h in hists:
+        lines.append(L.init_line(h["cfg"], variants))
+        spans.append((len(lines), len(h["ops"])))
+        lines += [L.op_line(op) for op in h["ops"]]
+    out = ctx.model("Ldm", lines)
+    if any(o == "bad-op" for o in out):
+        k = next(i for i, o in enumerate(out) if o == "bad-op")
+        raise Infra(f"model driver rejected line: {lines[k][:200]}")
+    return [out[a:a + n] for a, n in spans]
 
 
 # ------------------------------------------------------------------------------------ generation
@@ -304,9 +350,22 @@ def gen_sub_filter(rng):
     return [st(), rng.choice("&|"), st()]
 
 
+def gen_action(rng, app, n_issued, registered):
+    """what the callback of a new subscription does when invoked (mostly nothing)"""
+    x = rng.random()
+    if x < 0.80:
+        return None
+    if x < 0.87:
+        return "x"                                                          # raises after having recorded the data
+    if x < 0.97:
+        j = rng.randrange(0, n_issued + 2)                                  # an earlier / this / a later subscription
+        return ["u", app if rng.random() < 0.85 else rng.choice([2, 16, 1, 5]), j]
+    return ["d", rng.choice(sorted(registered)) if registered else app]
+
+
 def gen_history(rng, n_ops):
     ops = [["regp", 2, [2]], ["regp", 16, [16]], ["regp", 1, [1]]]
-    cons_pool = [2, 16, 1, 5, 35]
+    cons_pool = [2, 16, 1, 5, 35, 3, 4]
     registered = set()
     for a in rng.sample(cons_pool[:4], 2):
         ops.append(["regc", a, [a, 1]])
@@ -316,6 +375,8 @@ def gen_history(rng, n_ops):
     utc = L.UTC0_MS
     next_id = 0
     reqs = []
+    slow = rng.random() < 0.3            # a history that dwells on cadence: long intervals, attendances late by 1 s .. interval
+    dynamic = rng.random() < 0.4         # the store changes under the subscriptions: updates, expiry, maintenance
 
     def rare(rng, normal, odd, p=0.06):
         return rng.choice(odd) if rng.random() < p else rng.choice(normal)
@@ -336,35 +397,50 @@ def gen_history(rng, n_ops):
             else:
                 types = rare(rng, [[2], [16], [2, 16], [1, 2, 16]], [[2, 99], [], [0]])
                 prio = rare(rng, [None, None, 0, 255], [256, -1])
-                notify = rare(rng, [None, 0, 0, 1, 500, 1000, 1000, 1500, 2000, 5000, MAX_NOTIFY], [-1, MAX_NOTIFY + 1])
+                if slow:
+                    notify = rng.choice([2000, 3000, 3000, 4000, 5000, 10000])
+                else:
+                    notify = rare(rng, [None, 0, 0, 1, 500, 1000, 1000, 1500, 2000, 3000, 5000, MAX_NOTIFY], [-1, MAX_NOTIFY + 1])
                 mult = rare(rng, [None, 0, 1, 1, 1, 2, 3, 255], [256, -1])
-                order = rare(rng, [None, None, None, {"kind": "U", "keys": [["header.stationId", rng.choice("ad")]]},
-                                   {"kind": "U", "keys": [["header.stationId", rng.choice("ad")],
-                                                          ["cam.generationDeltaTime", rng.choice("ad")]]}], ["!"])
-                if isinstance(order, dict) and len(order["keys"]) == 2 and types != [2] and rng.random() < 0.85:
-                    order = {"kind": "U", "keys": order["keys"][:1]}      # keep C13-KF2 (missing order attribute) rare
+                d1, d2 = rng.choice("ad"), rng.choice("ad")
+                order = rare(rng, [None, None, None, {"kind": "U", "keys": [["header.stationId", d1]]},
+                                   {"kind": "U", "keys": [["header.stationId", d1], ["cam.generationDeltaTime", d2]]},
+                                   {"kind": "U", "keys": [["header.stationId", d1], ["cam.generationDeltaTime", d2],
+                                                          ["cam.speed", rng.choice("ad")]]}], ["!"])
+                if isinstance(order, dict) and len(order["keys"]) >= 2 and types != [2] and rng.random() < 0.7:
+                    order = {"kind": "U", "keys": order["keys"][:1]}      # keep C13-KF2 (missing order attribute) moderate
                 r = [app, types, prio, gen_sub_filter(rng), notify, mult, order]
                 reqs.append(r)
-            ops.append(["sub", cb] + r)
+            act = gen_action(rng, r[0], len(issued), registered) if r[6] is None else None
+            ops.append(["sub", cb] + r + ([act] if act is not None else []))
             cb += 1
             if r[0] in registered:
                 issued.append(r[0])
         elif x < 0.36:
             j = rng.randrange(0, len(issued) + 1) if issued else None
             ops.append(["unsub", app, rng.choice([None, j, j, j])])
-        elif x < 0.62:
+        elif x < 0.60:
             t = rng.choice(["cam", "cam", "vam", "denm"])
             a = {"cam": 2, "vam": 16, "denm": 1}[t] if rng.random() < 0.9 else 5
-            ops.append(["add", a, L.now_its(utc) + next_id, dict(FAR, minC=next_id % 3), 10 ** 6, L.ser(msg(rng, t))])
+            validity = rng.choice([1, 2, 3]) if (dynamic and rng.random() < 0.4) else 10 ** 6
+            ops.append(["add", a, L.now_its(utc) + next_id, dict(FAR, minC=next_id % 3), validity, L.ser(msg(rng, t))])
             next_id += 1
-        elif x < 0.66:
+        elif x < 0.64:
             ops.append(["del", 2, rng.randrange(0, next_id + 1)])
+        elif dynamic and x < 0.68:
+            t = rng.choice(["cam", "cam", "vam", "denm"])
+            ops.append(["upd", {"cam": 2, "vam": 16, "denm": 1}[t], rng.randrange(0, next_id + 1), L.ser(msg(rng, t))])
+        elif dynamic and x < 0.70:
+            ops.append(["gc"])
         elif x < 0.80:
             ops.append(["attend"])
         else:
-            ms = rng.choice([125, 250, 375, 500, 500, 875, 1000, 1000, 1125, 2000, 5000])
+            ms = rng.choice([1000, 1000, 2000, 3000, 4000, 5000] if slow else
+                            [125, 250, 375, 500, 500, 875, 1000, 1000, 1125, 2000, 5000])
             utc += ms
             ops.append(["adv", ms])
+            if slow and rng.random() < 0.7:
+                ops.append(["attend"])
     ops.append(["adv", 5000])
     ops.append(["attend"])
     return {"cfg": CFG, "ops": ops}
@@ -373,6 +449,7 @@ def gen_history(rng, n_ops):
 def boundary_histories():
     now = L.now_its(L.UTC0_MS)
     cam = lambda g, sid=1: L.ser({"header": {"stationId": sid}, "cam": {"generationDeltaTime": g}})
+    vam = lambda g, sid=1: L.ser({"header": {"stationId": sid}, "vam": {"generationDeltaTime": g}})
     pre = [["regp", 2, [2]], ["regc", 2, [2, 1]], ["regc", 16, [16]]]
     add = lambda k, g=1, sid=1: ["add", 2, now + k, dict(FAR), 10 ** 6, cam(g, sid)]
     out = []
@@ -381,6 +458,19 @@ def boundary_histories():
         for adv in (0, 875, 1000, 1125, 1875, 2000):
             out.append({"cfg": CFG, "ops": pre + [add(0), ["sub", 0, 2, [2], None, None, notify, 1, None], ["adv", adv],
                                                   ["attend"], ["attend"], ["adv", 1000], ["attend"]]})
+    # cadence over a whole history: an attendance that comes `late` after the end of the interval, then attendances every
+    # second: the next notification is due one full interval after the PREVIOUS NOTIFICATION, not earlier
+    for notify in (2000, 3000, 5000):
+        for late in range(1000, notify + 1000, 1000):
+            ops = pre + [add(0), ["sub", 0, 2, [2], None, None, notify, 1, None], ["sub", 1, 2, [2], None, None, 1000, 1, None],
+                         ["adv", notify + late], ["attend"]]
+            for _ in range(2 * notify // 1000 + 1):
+                ops += [["adv", 1000], ["attend"]]
+            out.append({"cfg": CFG, "ops": ops})
+    # data that appears late (no match until then), reactive attendance on the add
+    out.append({"cfg": CFG, "ops": pre + [["sub", 0, 2, [2], None, None, 3000, 1, None], ["adv", 4000], ["attend"], ["adv", 1000],
+                                          add(0), ["adv", 1000], add(1), ["adv", 1000], add(2), ["adv", 1000], add(3), ["adv", 1000],
+                                          add(4)]})
     # multiplicity boundary
     for mult in (None, 0, 1, 2, 3):
         out.append({"cfg": CFG, "ops": pre + [["sub", 0, 2, [2], None, None, 0, mult, None], ["attend"], add(0), ["attend"],
@@ -396,14 +486,216 @@ def boundary_histories():
     # validation ladder, one cause at a time
     for r in ([35, [2], None, None, 0, 1, None], [2, [99], None, None, 0, 1, None], [2, [2], 256, None, 0, 1, None],
               [2, [2], None, "!", 0, 1, None], [2, [2], None, None, -1, 1, None], [2, [2], None, None, 0, 256, None],
-              [2, [2], None, None, 0, 1, "!"], [35, [99], 300, "!", -5, 999, "!"]):
+              [2, [2], None, None, 0, 1, "!"], [35, [99], 300, "!", -5, 999, "!"], [2, [2], -1, None, 0, 1, None],
+              [2, [2], None, None, MAX_NOTIFY + 1, 1, None], [2, [2], 255, None, MAX_NOTIFY, 255, None], [2, [2], 0, None, 0, -1, None]):
         out.append({"cfg": CFG, "ops": pre + [["sub", 0] + r, add(0), ["attend"]]})
-    # ordered notification, two overlapping subscriptions
+    # ordered notification, two overlapping subscriptions; mixed directions with ties on the first key
     o = {"kind": "U", "keys": [["header.stationId", "a"], ["cam.generationDeltaTime", "d"]]}
     out.append({"cfg": CFG, "ops": pre + [add(0, 5, 2), add(1, 5, 1), add(2, 9, 1), ["sub", 0, 2, [2], None, None, 0, 1, o],
                                           ["sub", 1, 16, [2], None, [["cam.generationDeltaTime", "ge", L.ser(9)]], 0, 1, None],
                                           ["attend"]]})
+    for d1 in "ad":
+        for d2 in "ad":
+            o = {"kind": "U", "keys": [["header.stationId", d1], ["cam.generationDeltaTime", d2]]}
+            out.append({"cfg": CFG, "ops": pre + [add(0, 20, 3), add(1, 40, 3), add(2, 10, 5), add(3, 30, 5), add(4, 5, 7),
+                                                  ["sub", 0, 2, [2], None, None, 0, 1, o], ["attend"]]})
+    # callbacks that re-enter IF.LDM.4 or raise (see ldm_common.act_token): the callback of subscription 0 unsubscribes
+    # subscription 1 / itself / deregisters the consumer; for every notification interval class
+    for notify in (None, 0, 1000):
+        for act in (["u", 2, 1], ["u", 2, 0], ["d", 2], ["d", 16], "x", ["u", 16, 2]):
+            out.append({"cfg": CFG, "ops": pre + [add(0), ["sub", 0, 2, [2], None, None, notify, 1, None, act],
+                                                  ["sub", 1, 2, [2], 1, None, notify, 1, None],
+                                                  ["sub", 2, 16, [2], None, None, notify, 1, None], ["adv", 2000], ["attend"],
+                                                  ["adv", 2000], ["attend"], ["adv", 1000], add(1)]})
+    # one subscription whose order cannot be evaluated (attribute missing in a selected object, C13-KF2) among others, and
+    # the subscription of a consumer that deregisters: the others are notified, the dead one is dropped
+    o = {"kind": "U", "keys": [["cam.generationDeltaTime", "a"]]}
+    out.append({"cfg": CFG, "ops": [["regp", 2, [2]], ["regp", 16, [16]], ["regc", 2, [2, 1]], ["regc", 16, [16]], add(0),
+                                    ["add", 16, now + 1, dict(FAR), 10 ** 6, vam(1)],
+                                    ["sub", 0, 2, [2, 16], None, None, 0, 1, o], ["sub", 1, 16, [2], None, None, 0, 1, None],
+                                    ["sub", 2, 2, [16], None, None, 1000, 1, None], ["attend"], ["adv", 1000], ["attend"],
+                                    ["deregc", 16], ["adv", 1000], add(2), ["attend"], ["regc", 16, [16]], ["attend"]]})
     return out
+
+
+# ------------------------------------------------------------------------------------ unsubscribe racing an attendance
+
+RACE_T0 = 1_700_000_000_000
+
+
+class _NoThread:
+    """threading.Thread stand-in inside ldm_*_thread(s): background loops are not started"""
+
+    def __init__(self, *a, **k):
+        self.daemon = True
+
+    def start(self):
+        pass
+
+    def join(self, *a):
+        pass
+
+
+class _RaceTime:
+    def monotonic(self):
+        return 1000.0
+
+    def time(self):
+        return RACE_T0 / 1000.0
+
+    def sleep(self, d):
+        pass
+
+
+_RACE = {}
+
+
+def race_env():
+    """modules whose Lock/RLock are replaced, files traced line-wise, code objects traced opcode-wise (the methods that the
+    lock map of harness/gen_locks.py knows: every method with a lock section or a shared-state access)"""
+    if not _RACE:
+        import gen_locks
+        import flexstack.facilities.local_dynamic_map.dictionary_database as db_mod
+        import flexstack.facilities.local_dynamic_map.ldm_service as svc_mod
+        import flexstack.facilities.local_dynamic_map.ldm_maintenance as mnt_mod
+        import flexstack.facilities.local_dynamic_map.if_ldm_3 as if3_mod
+        import flexstack.facilities.local_dynamic_map.if_ldm_4 as if4_mod
+        mods = [db_mod, svc_mod, mnt_mod, if3_mod, if4_mod]
+        info = gen_locks.analyse()
+        names = set(info["blocks"].keys()) | {r[0] for r in info["records"]} | set(info["calls"].keys())
+        codes = []
+        for mod in mods:
+            for cname, cls in vars(mod).items():
+                if isinstance(cls, type) and cls.__module__ == mod.__name__:
+                    for n, f in vars(cls).items():
+                        if f"{cname}_{n}" in names and hasattr(f, "__code__"):
+                            codes.append(f.__code__)
+        _RACE.update(db=db_mod, svc=svc_mod, mnt=mnt_mod, if3=if3_mod, if4=if4_mod, files=[m.__file__ for m in mods],
+                     patch=[db_mod, svc_mod], codes=codes)
+    return _RACE
+
+
+class RaceRun:
+    """Two REAL threads on a real LDMService (in-memory back-end) under harness/dsched.py: T0 runs one attendance pass,
+    T1 unsubscribes subscription A (or deregisters its consumer) and notes when the call has returned.  A and B are due.
+    Events (total order): ("pn", cb) process_notifications entered for cb, ("cb", cb) callback invoked,
+    ("gone", ok) the unsubscribe / deregistration of A has returned."""
+
+    def __init__(self, sc, policy):
+        import dsched
+        import realstack as rs
+        from flexstack.facilities.local_dynamic_map import ldm_classes as K
+        env = race_env()
+        self.sc = sc
+        clock = rs.VClock(RACE_T0)
+        with clock:
+            with dsched.patched(env["patch"], extra={"Thread": _NoThread}):
+                area = K.Location.initializer(latitude=415000000, longitude=21000000)
+                db = env["db"].DictionaryDataBase()
+                svc = env["svc"].LDMService(env["mnt"].LDMMaintenance(area, db))
+                i3, i4 = env["if3"].InterfaceLDM3(svc), env["if4"].InterfaceLDM4(svc)
+                sched = dsched.DSched(policy, line_files=env["files"], opcode_codes=env["codes"], max_steps=60000)
+                self.s = sched
+                i3.register_data_provider(K.RegisterDataProviderReq(2, (K.AccessPermission(2),), K.TimeValidity(1000)))
+                for app in (2, 16):
+                    i4.register_data_consumer(K.RegisterDataConsumerReq(app, (K.AccessPermission(app),), None))
+                now = K.TimestampIts.initialize_with_utc_timestamp_seconds(RACE_T0 // 1000).timestamp_its
+                i3.add_provider_data(K.AddDataProviderReq(2, K.TimestampIts(now), L.real_location(dict(FAR)),
+                                                          {"cam": {"generationDeltaTime": 1}}, K.TimeValidity(10 ** 6)))
+                nt = None if sc["notify"] is None else K.TimestampIts(sc["notify"])
+                ids = {}
+                for cb, app in (("A", 2), ("B", 16)):
+                    r = i4.subscribe_data_consumer(K.SubscribeDataobjectsReq(
+                        application_id=app, data_object_type=(2,), priority=None, filter=None, notify_time=nt,
+                        multiplicity=1, order=None), (lambda resp, cb=cb: sched.log("cb", cb)))
+                    ids[cb] = r.subscription_id
+                if len(svc.subscriptions) != 2:
+                    raise Infra("race scenario: the two subscriptions were not stored")
+                clock.advance((sc["notify"] or 0) + 1000)           # both subscriptions are due
+                names = {hash(si.subscription_request): ("A" if si.subscription_request.application_id == 2 else "B")
+                         for si in svc.subscriptions}
+                orig_pn = svc.process_notifications
+
+                def pn(subscription, result):
+                    sched.log("pn", names.get(hash(subscription.subscription_request), "?"))
+                    return orig_pn(subscription, result)
+                svc.process_notifications = pn
+
+                def t_attend():
+                    svc.attend_subscriptions()
+
+                def t_remove():
+                    if sc["remove"] == "unsub":
+                        r = i4.unsubscribe_data_consumer(K.UnsubscribeDataConsumerReq(2, ids["A"]))
+                        sched.log("gone", int(r.result) == 0)
+                    else:
+                        r = i4.deregister_data_consumer(K.DeregisterDataConsumerReq(2))
+                        sched.log("gone", int(r.ack) == 0)
+                sched.spawn(t_attend, name="attend")
+                sched.spawn(t_remove, name="remove")
+                with rs.quiet():
+                    sched.run(timeout=30.0)
+                self.left = len(svc.subscriptions)
+        self.steps = sched.steps
+        self.choices = [c[0] for c in sched.steps]
+        self.events = list(sched.events)
+
+    def judge(self):
+        """[(what, finding id)]: callback of A after its removal had returned.  Known finding C14-KF2: the notification
+        was decided before the removal returned (the callback is invoked outside the service lock), or notify_time is
+        None / 0 (no interval test stands between a removed subscription and its callback once the attendance is past its
+        membership check).  Anything else - the decision was taken AFTER the removal had returned - is a violation."""
+        s = self.s
+        if s.abort_reason == "deadlock":
+            return [(f"deadlock: {s.deadlock}", None)]
+        if s.abort_reason:
+            raise Infra(f"scheduler aborted: {s.abort_reason}")
+        bad = [(f"{t.name} raised {type(t.exc).__name__}: {t.exc}", None) for t in s.threads if t.exc is not None]
+        ev = self.events
+        gone = next((i for i, e in enumerate(ev) if e[0] == "gone" and e[1]), None)
+        if any(e[0] == "gone" and not e[1] for e in ev):
+            bad.append(("removal of a live subscription / registered consumer refused", None))
+        if [e for e in ev if e == ("cb", "B")] != [("cb", "B")]:
+            bad.append((f"subscription B (other consumer, due) was notified {sum(1 for e in ev if e == ('cb', 'B'))} times", None))
+        for i, e in enumerate(ev):
+            if e == ("cb", "A") and gone is not None and i > gone:
+                decided = max((j for j, x in enumerate(ev[:i]) if x == ("pn", "A")), default=-1)
+                if decided < gone or not self.sc["notify"]:
+                    bad.append(("callback of A invoked after its removal returned (decided before / no interval test)", "C14-KF2"))
+                else:
+                    bad.append((f"callback of A invoked although the attendance took up its notification AFTER "
+                                f"{self.sc['remove']} had returned ACCEPTED (notify_time {self.sc['notify']} ms)", None))
+        return bad
+
+
+RACE_SCENARIOS = [{"notify": 2000, "remove": "unsub"}, {"notify": 1000, "remove": "dereg"}, {"notify": 0, "remove": "unsub"}]
+
+
+def race_explore(ctx, cap1, cap2, n_pct):
+    """per scenario: ALL schedules with at most one pre-emption (one pre-emption suffices to put a whole removal between any
+    two steps of the attendance), then a sample of the two-pre-emption schedules and some PCT runs"""
+    import dsched
+    for sc in RACE_SCENARIOS:
+        def handle(run, sc=sc):
+            ctx.evals()
+            ctx.cover(f"race_{sc['remove']}_{sc['notify']}")
+            ctx.cover("race_preemptions_%d" % min(dsched.preemptions(run.steps), 3))
+            ctx.nontrivial(("race", sc["remove"], sc["notify"], tuple(run.events)))
+            for what, fid in run.judge():
+                ctx.violation(f"race {sc['remove']}/notify={sc['notify']}: {what}",
+                              {"kind": "race", "scenario": sc, "schedule": run.choices}, fid)
+            return run
+
+        def once(prefix, sc=sc):
+            return handle(RaceRun(sc, dsched.Replay(prefix))).steps
+        runs, exhausted = dsched.enumerate_schedules(once, 1, cap1 if sc["notify"] else cap1 // 4, None)
+        ctx.cover("race_runs", runs)
+        if exhausted:
+            ctx.cover("race_exhausted_bound_1")
+        runs, exhausted = dsched.enumerate_schedules(once, 2, cap2, ctx.rng)
+        ctx.cover("race_runs", runs)
+        for i in range(n_pct):
+            handle(RaceRun(sc, dsched.PCT(ctx.rng, depth=2 + i % 2, est_steps=400)))
 
 
 def load_corpus():
@@ -411,15 +703,17 @@ def load_corpus():
 
 
 def run(ctx):
-    ctx.extra["rule"] = ("one evaluation = one interface operation on the real facility; at every attendance the reference "
-                         "model decides, from the real store content, which callbacks must fire with which objects; "
-                         "distinct_nontrivial counts distinct (operation, outcome, number of callbacks) triples")
+    ctx.extra["rule"] = ("one evaluation = one interface operation on the real facility (callbacks record, and some raise or "
+                         "re-enter IF.LDM.4); at every attendance the reference model decides, from the real store content, "
+                         "which callbacks must fire with which objects; plus one evaluation per explored thread schedule of "
+                         "the unsubscribe-vs-attendance race; distinct_nontrivial counts distinct (operation, outcome, number "
+                         "of callbacks) triples and distinct race event sequences")
     variants = detect_variants()
     ctx.extra["variant"] = {"C14-KF1": "unique subscription ids" if variants["uniqueIds"] else "id = hash(request) (code as is)"}
     hists = [("corpus:" + n, {"cfg": c["cfg"], "ops": c["ops"]}) for n, c in load_corpus()]
     ctx.cover("corpus_cases", len(hists))
     hists += [(f"boundary:{i}", h) for i, h in enumerate(boundary_histories())]
-    for i in range(ctx.scale(300, 9000)):
+    for i in range(ctx.scale(260, 9000)):
         n_ops = ctx.rng.choice([15, 30, 60, 120] if not ctx.thorough else [15, 30, 60, 120, 250, 400])
         hists.append((f"random:{i}", gen_history(ctx.rng, n_ops)))
     chunk = 400
@@ -435,7 +729,17 @@ def run(ctx):
                 ctx.cover(f"op_{op[0]}:{outcome}")
                 if ncalls:
                     ctx.cover(f"callbacks_on_{op[0]}", ncalls)
+                if op[0] == "sub" and len(op) > 9 and op[9] is not None:
+                    ctx.cover("callback_action_" + (op[9] if op[9] == "x" else op[9][0]))
                 ctx.nontrivial((op[0], outcome, min(ncalls, 5)))
+    for n, c in corpus("C14"):
+        if c.get("kind") == "race":
+            import dsched
+            r = RaceRun(c["scenario"], dsched.Replay(c.get("schedule", [])))
+            ctx.evals()
+            for what, fid in r.judge():
+                ctx.violation(f"corpus:{n}: {what}", c, fid)
+    race_explore(ctx, ctx.scale(400, 3000), ctx.scale(40, 1500), ctx.scale(10, 300))
     if hists:
         h = hists[-1][1]
         ctx.sample("history", {"ops": [op if op[0] != "add" else op[:3] + ["..."] for op in h["ops"][:14]]})
@@ -443,16 +747,25 @@ def run(ctx):
 
 def search(ctx):
     hists = boundary_histories()
-    for i in range(ctx.scale(600, 20000)):
+    for i in range(ctx.scale(800, 27000)):
         hists.append(gen_history(ctx.rng, ctx.rng.choice([15, 30, 60, 120])))
     for i, h in enumerate(hists):
         check_history(ctx, h, f"search:{i}")
         if len(ctx.violations) >= 3:
-            break
+            return
+    race_explore(ctx, ctx.scale(1200, 9000), ctx.scale(400, 4500), ctx.scale(60, 900))
 
 
 def replay(ctx, obj):
     case = obj.get("case", obj)
+    if case.get("kind") == "race":
+        import dsched
+        r = RaceRun(case["scenario"], dsched.Replay(case.get("schedule", [])))
+        bad = r.judge()
+        print(f"  race {case['scenario']}: schedule of {len(case.get('schedule', []))} choices; events: {r.events}")
+        for what, fid in bad:
+            print(f"  VIOLATED: {what}" + (f"  [{fid}]" if fid else ""))
+        return bool(bad)
     if case.get("kind") != "history":
         raise Infra(f"unknown replay kind {case.get('kind')}")
     hist = {"cfg": case["cfg"], "ops": case["ops"]}
